@@ -26,7 +26,7 @@ from os import getcwd as c_level_function          # callables implemented in C,
 from math import sqrt as another_c_level_function
 def annotated(x: int, y: "str" = "") -> float: return 0.0          # annotations are evaluated when the def runs (no __future__ import here)
 print("ANN " + json.dumps({k: repr(v) for k, v in sorted(annotated.__annotations__.items())}))
-print("ENV " + json.dumps({"argv": sys.argv, "name": __name__, "file": os.path.abspath(__file__), "path0": os.path.abspath(sys.path[0]),
+print("ENV " + json.dumps({"argv": sys.argv, "name": __name__, "file": os.path.abspath(__file__), "path0": os.path.abspath(sys.path[0]), "path0_raw": sys.path[0],
                            "cwd": os.getcwd(), "sibling": os.path.abspath(helper_sibling.__file__)}))
 with open(os.path.join(os.environ["C07_LOG_DIR"], "order.log"), "a") as fh:
     fh.write("prog\\n")
@@ -64,18 +64,29 @@ def only_wrapped_warning(err):
     return bool(lines) and all(WRAPPED_WARNING in l or l.strip().startswith('self.add_function(') for l in lines) and any(WRAPPED_WARNING in l for l in lines)
 
 
+# a program that changes directory before it imports a second sibling (the import path root must not move with it)
+CHDIR = ENVDUMP + '''\
+os.chdir(os.environ["C07_LOG_DIR"])
+import helper_late
+print("late sibling", helper_late.Y)
+'''
+
+
 def layout(d):
     """files: a script with a sibling in the top directory, in a sub-directory, in a bin directory on PATH, a module and a package"""
     files = {'top.py': ENVDUMP, 'helper_sibling.py': 'X = 1\n', 'helper_wrapped.py': WRAPPED, 'sub/helper_wrapped.py': WRAPPED, 'bin/helper_wrapped.py': WRAPPED, 'sub/inner.py': ENVDUMP, 'sub/helper_sibling.py': 'X = 2\n',
              'bin/onpath.py': ENVDUMP, 'bin/helper_sibling.py': 'X = 3\n', 'modx.py': ENVDUMP,
              'pkgm/__init__.py': '', 'pkgm/__main__.py': ENVDUMP.replace('import helper_sibling', 'import helper_sibling'),
              'pkgm/leaf.py': ENVDUMP, 'setup_file.py': SETUP, 'sub/setup_in_sub.py': SETUP,
-             'raises.py': ENVDUMP + 'raise ValueError("the program fails at its end")\n'}
+             'raises.py': ENVDUMP + 'raise ValueError("the program fails at its end")\n',
+             'sub/chdir_then_import.py': CHDIR, 'sub/helper_late.py': 'Y = 5\n', 'linkdir/.keep': ''}
     for rel, text in files.items():
         p = os.path.join(d, rel)
         os.makedirs(os.path.dirname(p), exist_ok=True)
         with open(p, 'w') as fh:
             fh.write(text)
+    # a script reached through a symbolic link in another directory: python puts the directory of the file itself on the import path
+    os.symlink(os.path.join('..', 'sub', 'inner.py'), os.path.join(d, 'linkdir', 'linked.py'))
 
 
 TARGETS = [
@@ -88,6 +99,8 @@ TARGETS = [
     ('package', ['-m', 'pkgm'], ['-m', 'pkgm'], True),
     ('package.module', ['-m', 'pkgm.leaf'], ['-m', 'pkgm.leaf'], True),
     ('raises', ['raises.py'], ['raises.py'], False),
+    ('symlink', ['linkdir/linked.py'], ['linkdir/linked.py'], False),
+    ('chdir-then-import', ['sub/chdir_then_import.py'], ['sub/chdir_then_import.py'], False),
 ]
 OPTSETS = [[], ['-l'], ['-b'], ['-l', '-b'], ['-l', '-v'], ['-l', '-z', '-u', '1e-3'], ['-l', '-i', '5'], ['-b', '-i', '5'], ['-i', '3'],
            ['-l', '-o', 'custom.out'], ['-l', '-s', 'setup_file.py'], ['-s', 'setup_file.py'], ['-l', '-p', 'helper_sibling'],
@@ -156,7 +169,7 @@ def compare(target, opts, pargs, r):
     ea, eb = env_of(r['py']['out']), env_of(r['kp']['out'])
     if ea is None or eb is None:
         return [{'no_environment_line': r['kp']['out'][-300:]}], []
-    for key in ('name', 'file', 'path0', 'cwd', 'sibling'):
+    for key in ('name', 'file', 'path0', 'path0_raw', 'cwd', 'sibling'):
         if ea[key] != eb[key]:
             viol.append({'differs': key, 'python': ea[key], 'kernprof': eb[key]})
     if ea['argv'][1:] != eb['argv'][1:]:
